@@ -397,6 +397,25 @@ func scnTestutil(rep *Report, rng *Rng, tier string, outdir string) {
 		add(TUInput{Gen: "gendir", Seed: seed, Size: 65536, Sharded: j%5 == 4})
 		add(TUInput{Gen: "gendirfrom", Seed: seed, Size: 65536, Dirname: "/x/y", Sharded: false})
 	}
+	// directory names with dots in them (an extension-stripping name comparison must not look at the parent's name), and
+	// wrap paths with empty segments (no entry may end up with an empty name)
+	nDot := 60
+	if tier == "thorough" {
+		nDot = 600
+	}
+	for j := 0; j < nDot; j++ {
+		seed := rng.Next() % 100000
+		dn := []string{"/fixtures.v2", "/a.b/c.d", "/v1.0/data"}[j%3]
+		add(TUInput{Gen: "dir-named", Seed: seed, Size: []int{2048, 3000, 5000}[j%3], Dirname: dn, Bitwidth: []int{0, 4}[j%2]})
+		if j%4 == 0 {
+			add(TUInput{Gen: "gendirfrom", Seed: seed, Size: 16384, Dirname: dn, Sharded: j%8 == 0})
+		}
+	}
+	for j, wp := range []string{"", "/", "//", "/want1//want0", "a//b/", "/a/b/", "a", "/..", "/./x"} {
+		seed := rng.Next() % 100000
+		add(TUInput{Gen: "wrap", Seed: seed, Size: 700, WrapPath: wp, Exclusive: j%2 == 0})
+		add(TUInput{Gen: "wrap", Seed: seed, Size: 700, WrapPath: wp, Exclusive: j%2 == 1, Sharded: true})
+	}
 	// tiny targets: many one-byte files, hence the same CID linked from several places
 	for _, sz := range []int{32, 40, 64, 128} {
 		for j := 0; j < 5; j++ {
